@@ -6,6 +6,8 @@ CONSTANTS
   MaxCb = 6
   PersistA = FALSE
   PersistB = FALSE
+  PersistC = FALSE
+  Depth = 2
   NF = 4
 VIEW View
 INVARIANTS PropertyHolds StatesValid ChildNeverOutlivesParent NeverRemovedWhileChildHandleAlive
